@@ -77,8 +77,8 @@ def _make_llsd_tuplecoord_spec(typ: Type[TupleCoord], needed_elems: Optional[int
         # Mostly for Quaternion since we don't actually need to send W.
         def _packer(x):
             if isinstance(x, TupleCoord):
-                x = x.data()
-            return list(x.data(needed_elems))
+                return list(x.data(needed_elems))
+            return list(x[:needed_elems])
     return lambda x: typ(*x), _packer
 
 
